@@ -6,7 +6,7 @@ From Coq Require Import String List NArith Bool.
 From J5V.lib Require Import Outcome Strcase.
 From J5V.model Require Import J5sAst Desc J5sWalk J5sLink J5sConvert J5sContract J5sValid J5sCorr.
 From J5V.gen Require ImportsGen.
-From J5V.proofs Require Import J5sProofs J5sContractProofs J5sLinkProofs J5sResolveProofs J5sWitnessProofs.
+From J5V.proofs Require Import J5sProofs J5sContractProofs J5sLinkProofs J5sResolveProofs J5sServiceProofs J5sWitnessProofs.
 Import ListNotations.
 Local Open Scope N_scope.
 
@@ -75,6 +75,39 @@ Theorem C02_compile_sound_partial : forall snake camel screaming bd pkg D,
   package_contract snake camel screaming bd pkg D.
 Proof. exact compile_sound. Qed.
 Print Assumptions C02_compile_sound_partial.
+
+(* ---- services: <Name>Service with exactly the declared methods; every method is
+   rpc <Method>(<Method>Request) returns (<Method>Response | google.api.HttpBody) with the declared
+   verb, the path (base path joined, ":name" -> "{snake_name}") and body; the request / response
+   messages satisfy the field and nesting contract *)
+Theorem C02_service_contract : forall snake camel screaming ev s ms ss is,
+  cv_service snake camel screaming ev s = Ok (ms, ss, is) ->
+  exists ds, ss = [ds] /\ ds_name ds = sv_name s ++ b "Service" /\ ds_topic ds = None /\
+             Forall2 (method_ok snake (sv_base s)) (sv_methods s) (ds_methods ds) /\
+             exists mss, ms = concat mss /\ Forall2 (method_msgs_ok snake camel screaming) (sv_methods s) mss.
+Proof. exact cv_service_ok. Qed.
+Print Assumptions C02_service_contract.
+
+(* ---- topics: <Topic>Topic services with the documented role and topic name, rpc <Name>(<Name>Message)
+   returns (Empty), <Name>Message objects whose implicit leading metadata field (request / upsert)
+   is field 1 and whose declared fields follow *)
+Theorem C02_topic_contract : forall snake camel screaming ev t ms ss is,
+  cv_topic snake camel screaming ev t = Ok (ms, ss, is) ->
+  match t with
+  | TPublish name msgs =>
+      exists ds, ss = [ds] /\ topic_service_ok snake camel screaming name (snake name) RPublish PNil msgs ms ds
+  | TReqRes name req reply =>
+      exists ds1 ds2 ms1 ms2, ss = [ds1; ds2] /\ ms = ms1 ++ ms2 /\
+        topic_service_ok snake camel screaming (name ++ b "Request") (snake name) RRequest virt_request req ms1 ds1 /\
+        topic_service_ok snake camel screaming (name ++ b "Reply") (snake name) RReply virt_request reply ms2 ds2
+  | TUpsert name entity msg =>
+      exists ds, ss = [ds] /\
+        topic_service_ok snake camel screaming name (snake name) (RUpsert entity) virt_upsert [default_tm_name name msg] ms ds
+  | TEvent name entity msg =>
+      exists ds, ss = [ds] /\ topic_service_ok snake camel screaming name (snake name) (REvent entity) PNil [msg] ms ds
+  end.
+Proof. exact cv_topic_ok. Qed.
+Print Assumptions C02_topic_contract.
 
 (* ---- references: the type a reference resolves to is a well-known implicitly importable type
    (the table of imports.go), or a declaration with the referenced name in the package that the
